@@ -8,6 +8,7 @@ import (
 
 	"github.com/arr-ai/arrai/pkg/fu"
 	"github.com/arr-ai/arrai/rel"
+	"github.com/arr-ai/arrai/syntax"
 )
 
 func init() {
@@ -97,4 +98,89 @@ func handlePrintParse(raw json.RawMessage) *Obs {
 		}
 	}
 	return ctx.obs
+}
+
+// X02 (beyond the listed properties): the pretty printer (//fmt.pretty) on the PrintParse universe.
+func init() {
+	handlers["prettyparse"] = handlePrettyParse
+	props["X02"] = func(rc *RunCtx) int {
+		rep := NewReport("X02", rc.Tier, rc.Seed, "model_checking")
+		rep.Rule = "The PrintParse universe (Reprint = identity on denotations) applied to the pretty printer: each value is built through the rel API, printed with syntax.PrettifyString (what //fmt.pretty returns), parsed and evaluated, and the denotation compared with the spec value."
+		rep.Exhaust = true
+		runs := []*TLCRun{{Module: "PrintParse", Cfg: tierPick(rc.Tier, "PrintParse_quick.cfg", "PrintParse_thorough.cfg")}}
+		runTLCToPool(rep, rc, runs, &Pool{Handler: "prettyparse"})
+		return rep.Finish()
+	}
+}
+
+func handlePrettyParse(raw json.RawMessage) *Obs {
+	var c struct {
+		V json.RawMessage `json:"v"`
+	}
+	if err := json.Unmarshal(raw, &c); err != nil {
+		return &Obs{Fails: []Fail{{Sig: Signature{Symptom: "bad-case"}, Detail: err.Error()}}}
+	}
+	a := MustParseAV(c.V)
+	ctx := &saCtx{mode: "c12", obs: &Obs{Key: a.Canon(), NonTrivial: 1}}
+	var v rel.Value
+	if _, _, p := catch(func() { v = a.Build() }); p {
+		return ctx.obs
+	}
+	if d := compare(a, Outcome{V: v}); !d.ok {
+		ctx.obs.Notes = append(ctx.obs.Notes, "construction differs from spec value; skipped")
+		return ctx.obs
+	}
+	ctx.obs.Evals++
+	var text string
+	var perr error
+	msg, frame, p := catch(func() { text, perr = syntax.PrettifyString(v, 0) })
+	if p {
+		ctx.fail("pretty", a, nil, a, "-", diffInfo{symptom: "panic", msg: classifyMsg(msg), frame: frame, detail: "panic while pretty-printing: " + msg}, a.Render())
+		return ctx.obs
+	}
+	if perr != nil {
+		ctx.fail("pretty", a, nil, a, "-", diffInfo{symptom: "unexpected-error", msg: "refused", detail: "the pretty printer refuses the value: " + safeSprint(perr)}, a.Render())
+		return ctx.obs
+	}
+	if d := compare(a, evalSource(text)); !d.ok {
+		ctx.fail("pretty", a, nil, a, "-", d, "value "+trunc(a.Render(), 400)+"\npretty-printed as "+trunc(fmt.Sprintf("%q", text), 600))
+	}
+	return ctx.obs
+}
+
+// X03 (beyond the listed properties): one-line library definitions (LibLaws spec).
+func init() {
+	handlers["liblaws"] = func(raw json.RawMessage) *Obs {
+		var c struct {
+			C struct {
+				F   string          `json:"f"`
+				Arg json.RawMessage `json:"arg"`
+				Out json.RawMessage `json:"out"`
+			} `json:"c"`
+		}
+		if err := json.Unmarshal(raw, &c); err != nil {
+			return &Obs{Fails: []Fail{{Sig: Signature{Symptom: "bad-case"}, Detail: err.Error()}}}
+		}
+		arg, want := MustParseAV(c.C.Arg), MustParseAV(c.C.Out)
+		obs := &Obs{NonTrivial: 1, Evals: 1}
+		var v rel.Value
+		if _, _, p := catch(func() { v = arg.Build() }); p {
+			return obs
+		}
+		src := "//" + c.C.F + "(x)"
+		obs.Sample = "//" + c.C.F + "(" + arg.RenderSugar() + ")"
+		o := evalTemplate(src, map[string]rel.Value{"x": v})
+		if d := compare(want, o); !d.ok {
+			obs.Fails = append(obs.Fails, Fail{Sig: Signature{Op: c.C.F, ShapeL: arg.Shape().Class, Symptom: d.symptom, Msg: d.msg, Frame: d.frame},
+				Detail: fmt.Sprintf("//%s(%s)\nexpected %s\n%s", c.C.F, arg.RenderSugar(), want.RenderSugar(), d.detail)})
+		}
+		return obs
+	}
+	props["X03"] = func(rc *RunCtx) int {
+		rep := NewReport("X03", rc.Tier, rc.Seed, "model_checking")
+		rep.Rule = "LibLaws spec: //bits.mask and //bits.set over subsets of 0..5 and numbers 0..70, //dict and //tuple over all tuples of three names and four values, //rel.union over all sets of six collections; TLC checks that the definitions are inverse and emits every input with its expected output, which the real function must return."
+		rep.Exhaust = true
+		runTLCToPool(rep, rc, []*TLCRun{{Module: "LibLaws", Cfg: "LibLaws.cfg"}}, &Pool{Handler: "liblaws"})
+		return rep.Finish()
+	}
 }
